@@ -1,4 +1,6 @@
 import Orca.Lemmas.SideFx
+import Orca.Gen.SideFxSites
+import Orca.Model.SideFxSitesSpec
 /-!
 # C23 — the side-effect report lists exactly the tagged additions and probes
 
@@ -101,3 +103,37 @@ example : (pull (run (init exBase) exOps)).map (fun r => (r.imports, r.globals, 
             [.locProbe (some 2) 2 0 [.const 1, .drop, .call 2, .const 2, .drop] [0xa3, 0xa4]]) := by decide
 
 end Orca.SideFx
+
+namespace Orca.SideFxSitesSpec
+open Orca.Gen.SideFxSites
+
+/-- **The tie to the source (regenerated on every run).** Every call of `add_injection` in the crate: the function it stands in, the
+    key it files under, the record variant and the fields it fills; and the (mode, list) pairs the two probe closures are called with.
+    A new site, a removed one, another key, a dropped field or a swapped pair breaks this obligation. -/
+theorem c23_record_sites_reviewed :
+    Orca.Gen.SideFxSites.sites = Orca.SideFxSitesSpec.sites
+    ∧ Orca.Gen.SideFxSites.probeCalls = Orca.SideFxSitesSpec.probeCalls :=
+  ⟨rfl, rfl⟩
+
+/-- what M12 assumes of those sites, decided on the regenerated list: every record is filed under the key of its own kind, and
+    every record carries a tag -/
+theorem c23_records_filed_under_their_kind :
+    ∀ s ∈ Orca.Gen.SideFxSites.sites, keyOf s.record = some s.key ∧ "tag" ∈ s.fields := by
+  decide
+
+/-- every kind of addition the property lists has exactly one place where its record is written (data: one per segment kind), all of
+    them inside `encode_internal`, i.e. while the item is being written into the output under its final index -/
+theorem c23_one_site_per_kind :
+    (Orca.Gen.SideFxSites.sites.filter (fun s => s.fn == "encode_internal")).map (·.record)
+      = ["Type", "Import", "Func", "Table", "Memory", "Global", "Export", "Element", "PassiveData", "ActiveData"]
+    ∧ (Orca.Gen.SideFxSites.sites.filter (fun s => s.fn != "encode_internal")).map (fun s => (s.fn, s.record))
+      = [("add_injections", "FuncProbe"), ("add_injections", "FuncLocProbe")] := by
+  decide
+
+/-- the probe closures pair each mode with the list of the same name (`alt` is the unwrapped `alternate`) -/
+theorem c23_probe_modes_paired :
+    Orca.Gen.SideFxSites.probeCalls.map (fun c => (c.2.2.1, c.2.2.2))
+      = [("Entry", "entry"), ("Exit", "exit"), ("Before", "before"), ("After", "after"), ("Alternate", "alt")] := by
+  decide
+
+end Orca.SideFxSitesSpec
